@@ -4,6 +4,11 @@ import json, os
 HERE = os.path.dirname(os.path.abspath(__file__))
 
 CLAIMED = {
+ 'C04': dict(
+   text='Decides the communication shape of the three library functions that execute collectives: both arms of every rank-conditioned branch run the same ordered sequence of collectives (name, root), every other branch or loop that decides whether a collective runs has a condition free of rank-dependent data (rank atoms, out-arguments of root-only collectives, their derivations), no exit depends on the rank, and in each phase the support vector is the argument of a broadcast on every path before it is used. The rank slices are evaluated abstractly (constant folding of the stride/start/end expressions in their C++ arithmetic) for 9 totals x 9 communicator sizes and must be an exact partition of 0..total-1; a sliced sequence whose order comes from a std::set<Edge> (address order) must be sorted by forest index first, and ForestIndex itself must not number edges while iterating such a set; serialize() archives every member once, is_mpi_datatype types are arithmetic-only, the MPI reduction operator is a minimum with not-found as identity, only rank 0 emits. Optimality of the result inherits the limits of C01/C02.',
+   note='Assumes identical graph contents on all ranks and boost::mpi collective semantics. Rank-invariance is a flow-insensitive taint argument; data merely written under a rank-conditioned branch is covered by the broadcast-before-use obligation instead.',
+   technique='collective-sequence matching + rank taint on the AST/CFG; abstract evaluation of slice bounds over a finite grid; address-order taint with a sort sanitiser; truth table of the reduction operator',
+   ref='DESIGN.md §3 A7/A8, §4 C04'),
  'C01': dict(
    text='PARTIAL. That each emitted set is a simple cycle and that the family is independent depends on the searches on concrete graphs and is not claimed. Decided are necessary conditions visible in the five sibling implementations of the de Pina phase loop (sequential signed, trees, TBB, two MPI): one unconditional emission per phase k = 0..csd-1; the update `for l in k+1..csd: if (support[l]*C == 1) support[l] += support[k]` with C and the emitted list derived from the same search result and the search driven by support[k] read after the sparsest-support swap; a failed set<Edge>::insert during unfolding can never reach a success return (path-sensitive flag propagation); root-only emission under MPI; every visited tree node (root included) gets the first-in-path label the candidate guards compare; SpVecGF2 operator+/* are merges with the right action table, strict shortcut guards and alias-safe +=.',
    note='Breaking any of these breaks count, independence or simplicity on some input; holding them does not establish the property. The search functions are trusted to return (cycle, weight, found) triples.',
